@@ -9,6 +9,7 @@ pub mod c09;
 pub mod c10;
 pub mod c11;
 pub mod c17;
+pub mod c18;
 pub mod c19;
 pub mod c20;
 pub mod c21;
@@ -94,6 +95,7 @@ pub fn registry() -> Vec<PropInfo> {
     v.extend(c25::props());
     v.extend(structural::props());
     v.extend(c17::props());
+    v.extend(c18::props());
     v.extend(c19::props());
     v.extend(c20::props());
     v.extend(c21::props());
